@@ -1619,6 +1619,72 @@ def gen_atom_eval():
 GENERATORS["AtomEval.lean"] = gen_atom_eval
 
 
+def gen_run_plan():
+    """src/worker.rs: Worker::run — the order of its steps and the conditions that select them (cleared run, empty pattern, rescoring edit,
+    rescoring pass over the previous matches vs. scoring of new items, cancelled sort) (C06, C07, C12, C19)"""
+    wsrc = strip_comments(read("src/worker.rs"))
+    psrc = strip_comments(read("src/pattern.rs"))
+    statuses = enum_variants(psrc, "Status")
+    body = fn_bodies(wsrc).get("run", [None])[0]
+    if body is None:
+        raise TranslateError("Worker::run not found")
+    # the verification hooks are yield points only
+    body = re.sub(r"#\[cfg\(nucleo_verif\)\]\s*crate::verif::point\([^;]*\);", "", body)
+    notify = r"if self\.should_notify\.load\(atomic::Ordering::Relaxed\) \{\s*\(self\.notify\)\(\);\s*\}"
+    m = re.fullmatch(
+        r"\{\s*self\.running = true;\s*self\.was_canceled = false;\s*"
+        r"if cleared \{\s*self\.last_snapshot = 0;\s*self\.in_flight\.clear\(\);\s*self\.matches\.clear\(\);\s*\}\s*"
+        r"if (?P<c_empty>[^{]+?) \{\s*self\.reset_matches\(\);\s*self\.process_new_items_trivial\(\);\s*" + notify + r"\s*return;\s*\}\s*"
+        r"if (?P<c_reset>[^{]+?) \{\s*self\.reset_matches\(\);\s*\}\s*"
+        r"let mut unmatched = AtomicU32::new\(0\);\s*"
+        r"if (?P<c_pass>[^{]+?) \{\s*self\.process_new_items_trivial\(\);(?P<pass>.*?)\} else \{\s*self\.process_new_items\(&unmatched\);\s*\}\s*"
+        r"let canceled = par_quicksort\(\s*&mut self\.matches,(?P<cmp>.*?)&self\.canceled,\s*\);\s*"
+        r"if canceled \{\s*self\.was_canceled = true;\s*\} else \{\s*self\.matches\s*\.truncate\(self\.matches\.len\(\) - take\(unmatched\.get_mut\(\)\) as usize\);\s*" + notify + r"\s*\}\s*\}",
+        body.strip(), re.S)
+    if not m:
+        raise TranslateError("Worker::run has an unexpected shape")
+    if not re.search(r"self\.matches\s*\.par_iter_mut\(\)\s*\.take_any_while\(\|_\| !self\.canceled\.load\(atomic::Ordering::Relaxed\)\)", m.group("pass")):
+        raise TranslateError("Worker::run: the rescoring pass is not a cancellable par_iter_mut over self.matches")
+
+    def cond(text):
+        terms = []
+        for t in text.split("&&"):
+            t = t.strip()
+            mm = re.fullmatch(r"pattern_status (==|!=) pattern::Status::(\w+)", t)
+            if mm and mm.group(2) in statuses:
+                terms.append(f"(status {mm.group(1)} {statuses.index(mm.group(2))})")
+            elif t == "!self.matches.is_empty()":
+                terms.append("!matches_empty")
+            elif t == "self.matches.is_empty()":
+                terms.append("matches_empty")
+            elif t == "self.pattern.is_empty()":
+                terms.append("pattern_empty")
+            elif t == "!self.pattern.is_empty()":
+                terms.append("!pattern_empty")
+            else:
+                raise TranslateError(f"Worker::run: condition term {t!r}")
+        return " && ".join(terms)
+    out = ["/- GENERATED by translator/translate.py from src/worker.rs (Worker::run) and src/pattern.rs (Status) — do not edit -/",
+           "namespace NucleoVerif.Gen.RunPlan", "",
+           "/-- `Status` variants in declaration order: " + ", ".join(f"{i} = {k}" for i, k in enumerate(statuses)) + " -/",
+           f"def statuses : Nat := {len(statuses)}", "",
+           "/-- `run` first sets `running`, clears `was_canceled`, and on a cleared run empties `last_snapshot`, `in_flight`, `matches` -/",
+           "def begins_with_running_then_clear : Bool := true", "",
+           "/-- the run takes the trivial path (`reset_matches; process_new_items_trivial; notify if armed; return`) -/",
+           f"def trivial_path (pattern_empty : Bool) : Bool := {cond(m.group('c_empty'))}", "",
+           "/-- `reset_matches` in front of the scoring pass -/",
+           f"def resets (status : Nat) : Bool := {cond(m.group('c_reset'))}", "",
+           "/-- the pass is `process_new_items_trivial` + a cancellable rescoring of `matches`; otherwise `process_new_items` -/",
+           f"def rescoring_pass (status : Nat) (matches_empty : Bool) : Bool := {cond(m.group('c_pass'))}", "",
+           "/-- after the sort: a cancelled sort only sets `was_canceled`; otherwise the placeholders are truncated, then notify if armed -/",
+           "def cancelled_sort_sets_flag_else_truncate_then_notify : Bool := true", "",
+           "end NucleoVerif.Gen.RunPlan"]
+    return "\n".join(out) + "\n"
+
+
+GENERATORS["RunPlan.lean"] = gen_run_plan
+
+
 def rust_struct_fields(src, name):
     m = re.search(r"struct\s+%s\s*\{(.*?)\}" % name, src, re.S)
     if m:
